@@ -30,6 +30,26 @@ def mkIdx (pm : Array Bool) : Array Nat × Nat × Nat :=
 
 end idx
 
+section pattern
+
+/-- `std::atoi` on a string of the restricted form used here: the value of the leading decimal digits -/
+def atoi (s : String) : Nat :=
+  (s.toList.takeWhile Char.isDigit).foldl (fun v c => v * 10 + (c.toNat - '0'.toNat)) 0
+
+/-- `pmask_pattern` (params(ptree), :139-165): `%start:stride` (the code reads `start` at offset 1 and `stride` at
+offset 3, i.e. a one-digit `start`), `<m` (the first `m`), `>m` (from `m` on); `none` = "Unknown pattern". -/
+def maskOfPattern (pat : String) (n : Nat) : Option (Array Bool) :=
+  match pat.toList with
+  | '%' :: _ =>
+    let start := atoi (pat.drop 1).toString
+    let stride := atoi (pat.drop 3).toString
+    some (Array.ofFn (n := n) (fun i => decide (start ≤ i.val ∧ (i.val - start) % stride = 0)))
+  | '<' :: _ => let m := atoi (pat.drop 1).toString; some (Array.ofFn (n := n) (fun i => decide (i.val < min m n)))
+  | '>' :: _ => let m := atoi (pat.drop 1).toString; some (Array.ofFn (n := n) (fun i => decide (m ≤ i.val)))
+  | _ => none
+
+end pattern
+
 section extract
 variable {K : Type}
 
@@ -92,14 +112,23 @@ def subFirstDiag (i : Nat) (s : K) : Row K → Row K
   | [] => []
   | cv :: t => if cv.1 = i then (cv.1, cv.2 - s) :: t else cv :: subFirstDiag i s t
 
-/-- `adjust_p == 1`, the vector `L`: `L[i] = Σ_{(k,v) ∈ Kpu_i} v * dia[k] * Kup_{k,i}` where `Kup_{k,i}` is the FIRST
-stored entry of row `k` of `Kup` with column `i` (entries without such a partner are skipped) -/
-def adjustL (dia : Vec K) (Kpu Kup : CRS K) : Vec K :=
+/-- `adjust_p == 1`, the vector `L`: `s = Σ_{(k,v) ∈ Kpu_i} v * dia[k] * Kup_{k,i}` where `Kup_{k,i}` is the FIRST
+stored entry of row `k` of `Kup` with column `i` (entries without such a partner are skipped); `L[i] = s` if row `i`
+of `Kpp` has a stored diagonal entry (from which `s` is then subtracted), `L[i] = 0` otherwise — the correction is
+added back in `spmv` only where it was subtracted (fix ce6260a; `adjustLAsFound` is the code before the fix). -/
+def adjustS (dia : Vec K) (Kpu Kup : CRS K) (i : Nat) : K :=
+  (Kpu.row i).foldl (fun s kv =>
+    match (Kup.row kv.1).find? (fun e => e.1 = i) with
+    | some e => s + kv.2 * dia.getD kv.1 0 * e.2
+    | none => s) 0
+
+def adjustL (dia : Vec K) (Kpu Kup Kpp : CRS K) : Vec K :=
   Array.ofFn (n := Kpu.nrows) (fun i =>
-    (Kpu.row i.val).foldl (fun s kv =>
-      match (Kup.row kv.1).find? (fun e => e.1 = i.val) with
-      | some e => s + kv.2 * dia.getD kv.1 0 * e.2
-      | none => s) 0)
+    if (Kpp.row i.val).any (fun cv => cv.1 = i.val) then adjustS dia Kpu Kup i.val else 0)
+
+/-- the code as found (before ce6260a): `L[i] = s` whether or not `Kpp` has a stored diagonal entry in row `i` -/
+def adjustLAsFound (dia : Vec K) (Kpu Kup : CRS K) : Vec K :=
+  Array.ofFn (n := Kpu.nrows) (fun i => adjustS dia Kpu Kup i.val)
 
 /-- `adjust_p == 1`: `Kpp` with `L[i]` subtracted from the first stored diagonal entry of every row -/
 def adjust1 (L : Vec K) (Kpp : CRS K) : CRS K :=
@@ -170,7 +199,7 @@ def init (nt : Nat) (prm : Params) (A : CRS K) (pm : Array Bool) : State K :=
   let Kpp := extractBlock A pm idx true true np np
   let dia := kuuDia prm.simplecDia Kuu
   let d : Vec K := dia.map (fun o => o.getD 0)
-  let L := adjustL d Kpu Kup
+  let L := adjustL d Kpu Kup Kpp
   let KppP := if prm.adjustP = 1 then adjust1 L Kpp else if prm.adjustP = 2 then adjust2 nt d Kpu Kup Kpp else Kpp
   { prm := prm, n := A.nrows, nu := nu, np := np, idx := idx,
     Kuu := Kuu, Kup := Kup, Kpu := Kpu, Kpp0 := Kpp, KppP := KppP,
